@@ -25,6 +25,9 @@ def layouts(r, coin, blocks, k, thorough):
     c.add_raw(b'f' + struct.pack('<I', 0), b'\x01\x02\x03'); c.add_raw(b'l', b'\x00'); c.add_raw(b'F\x07txindex', b'1'); c.add_raw(b'R', b'')
     c.add_raw(b'a' + b'\x33' * 32, b'zz'); c.add_raw(b'c' + b'\x44' * 32, gen.rb(r, 40))
     c.extra_files = {'blk99998.dat': gen.rb(r, 100), 'rev00000.dat': gen.rb(r, 64), 'blkindex.dat': b'x', 'blk.dat': b'y', 'blk12x.dat': b'z', 'xblk00003.dat': b'', 'sub/blk00000.dat': gen.rb(r, 10)}
+    if k % 2 == 0:
+        c.symlinks = {'blk00007.dat': '/nonexistent/moved/blk00007.dat', 'old-blocks': '/nonexistent/old-blocks', 'blk00012.dat': 'blk00012.dat'}     # dangling links and a link loop, named by no record
+        c.linked_files = [sorted(c.files)[0]]                                                                                   # one indexed blk file is reached through a symlink
     c.meta['files'] = files; yield c
     # 3 sparse offsets beyond 4 GiB, with a decoy block at the offset modulo 2^32 (a 32-bit truncation would silently deliver the decoy)
     c = base('sparse'); f = r.choice([0, 5]); hbig = r.randrange(n); decoy = gen.random_chain(r, coin, 1)[0]
@@ -76,7 +79,7 @@ def equal_size_chain(r, coin, n):
 def explore(ck):
     r = ck.rng; quick = ck.tier == 'quick'
     ck.rule = ('each logical chain is materialised in 6 physical layouts (the sixth: the index holds heights S..S+n-1 only, run with --start S) (reference; random permutation over 1-4 files numbered from {0,1,127,128,16383,16384,99999,100000,2^32,2^32+1,2^64-1; 2^64-1 / 2^64-128 / 2^64-129 forced in two of three chains} '
-               'with garbage padding, unindexed decoy blocks, extra LevelDB keys f/l/F/R/a/c, extra files and 4 name paddings; sparse offset beyond 4 GiB with a decoy at the offset mod 2^32; '
+               'with garbage padding, unindexed decoy blocks, extra LevelDB keys f/l/F/R/a/c, extra files, dangling symbolic links and a link loop named by no record, an indexed blk file reached through a symbolic link, and 4 name paddings; sparse offset beyond 4 GiB with a decoy at the offset mod 2^32; '
                'file number >= 2^32 with a decoy in the file numbered mod 2^32; equal-sized blocks interleaved over two files); all layouts must give the csvdump output of the model of the reference. '
                'Non-trivial: the layout is not the reference; distinct by (chain, layout).')
     cases = []; groups = {}
@@ -100,6 +103,14 @@ def explore(ck):
     if not run.hooks_ok(ck): return
     recs = []
     vals = [0, 1, 127, 128, 255, 16383, 16384, 16511, 16512, 2**21, 2**28, 2**32 - 1, 2**32, 2**35, 2**63, 2**64 - 1]
+    def core_varint(bs):      # reference decoder of Bitcoin Core's VarInt
+        n = 0
+        for ch in bs:
+            n = (n << 7) | (ch & 0x7f)
+            if ch & 0x80: n += 1
+        return n
+    # values whose encoding has 0xff / 0x80 continuation bytes after odd and even prefixes (carries between the 7-bit groups)
+    vals += sorted({core_varint([a_, b_, c_]) for a_ in (0x80, 0x81, 0x82, 0xfe, 0xff) for b_ in (0xff, 0x80, 0xfe) for c_ in (0x00, 0x01, 0x7f)} | {core_varint([0xff, 0xff, 0xff, 0x7f]), core_varint([0x81, 0xff, 0xff, 0x00])})
     for i in range(300 if quick else 3000):
         st = r.choice([0x1d, 0x0d, 0x19, 0x08, 0x10, 0x18, 0x00, 0x02, 0x03, 0x05, 0x1f, 0x3d, 0x5d, r.randrange(256)])
         v = index_value(r.choice(vals), r.choice(vals), st, r.choice(vals), r.choice(vals), r.choice(vals), r.choice(vals), gen.rb(r, 80))
